@@ -572,11 +572,30 @@ impl FootprintGuard {
                 return;
             }
             if let Some(prev_from) = store.edge_index.get(&record.id) {
-                if *prev_from != record.from && !self.nodes_write.contains(prev_from) {
+                if *prev_from == record.from {
+                    return;
+                }
+                if !self.nodes_write.contains(prev_from) {
                     std::panic::panic_any(FootprintViolation {
                         rule_name: self.rule_name,
                         warp_id: self.warp_id,
                         kind: ViolationKind::NodeWriteNotDeclared(*prev_from),
+                        op_kind: op_kind_str(op),
+                    });
+                }
+                // The tick patch records a migration as `DeleteEdge(old from)` + `UpsertEdge`,
+                // and the delete's mini-cascade rewrites the edge attachment slot on replay and
+                // on import into another lane, so that slot is a write target as well (exactly
+                // as for an explicit `DeleteEdge`).
+                let beta = AttachmentKey::edge_beta(crate::ident::EdgeKey {
+                    warp_id: *warp_id,
+                    local_id: record.id,
+                });
+                if !self.attachments_write.contains(&beta) {
+                    std::panic::panic_any(FootprintViolation {
+                        rule_name: self.rule_name,
+                        warp_id: self.warp_id,
+                        kind: ViolationKind::AttachmentWriteNotDeclared(beta),
                         op_kind: op_kind_str(op),
                     });
                 }
